@@ -1,7 +1,458 @@
-import JubakoModel.Theorems.C12
+/-
+Connecting the executable model of `tools::set_location` (`setLocationAt`, Model/Pack.lean) to the
+abstract step `fileStep` of Theorems/C12.lean, and showing that the manifest's integrity check
+(`manifestCheck`) is unaffected by location rewrites.
+
+The hypotheses H1–H4 on the manifest pack `f` (= `file.drop origin`) are bundled in the structure
+`ManifestLayout f h m base infos`; `ManifestLayout.of_concat` shows they hold for every file laid
+out as the creator does (`header block ‖ manifest header block ‖ pack-info blocks ‖ anything`), so
+none of the statements below is vacuous.  The layout fact (L) `base + n·256 = checkInfoPos` is not
+an extra hypothesis: it follows from `fits` and `hbase` (`ManifestLayout.end_eq`).
+
+Statement notes:
+* `setLocationAt_eq_fileStep`: the second component of the result (left as `_` in the plan) is
+  `oldLocation infos uuid` — the location of the first info carrying the uuid, `none` if absent.
+* items 4 and 5 (`*_fileStep`, `manifestCheck_histories`) need H5 `loc.length ≤ Consts.locationPad`:
+  a longer location would make the re-encoded block longer than 256 bytes (the tool panics there,
+  see `setLocationAt_go_spec`).
+-/
+import JubakoModel.Lemmas.Rewrite
+
+set_option maxRecDepth 8000
+
 namespace Jubako
-#check @setLocationAt.go
-#print setLocationAt
-#print setLocationAt.go
-#print Consts.locationPad
+
+theorem readBlock_info (f : Bytes) (base : Nat) (infos : List PackInfo)
+    (hm : ManifestAt f base infos) (hw : ∀ p ∈ infos, p.WF) (k : Nat) (hk : k < infos.length) :
+    readBlock f (base + k * 256) 252 = .ok (infos[k]).encode := by
+  obtain ⟨hlen, hblk⟩ := hm
+  have hwk := hw _ (List.getElem_mem hk)
+  have h1 : (k + 1) * 256 ≤ infos.length * 256 := Nat.mul_le_mul_right 256 hk
+  have hle : base + k * 256 + 252 + 4 ≤ f.length := by omega
+  have hs : slice f (base + k * 256) (252 + 4) = block (infos[k]).encode := hblk k hk
+  simp only [readBlock, hle, if_true, hs, checkBlock_block]
+  have : (block (infos[k]).encode).take 252 = (infos[k]).encode := by
+    unfold block
+    rw [← PackInfo.encode_length _ hwk, List.take_left']
+    rfl
+  rw [this]
+
+theorem setLocationAt_go_spec (file : Bytes) (origin : Nat) (uuid loc f : Bytes) (base : Nat)
+    (infos : List PackInfo) (hm : ManifestAt f base infos) (hw : ∀ p ∈ infos, p.WF) :
+    ∀ (fuel k : Nat), k + fuel = infos.length →
+      setLocationAt.go file origin uuid loc f base k fuel =
+        match (infos.drop k).findIdx? (fun p => p.uuid == uuid) with
+        | some i =>
+          if loc.length > Consts.locationPad then .panic "pstring.rs: assert len <= max_len"
+          else .ok (splice file (origin + (base + (k + i) * 256))
+                (block (setLoc (infos.getD (k + i) specStep.default) loc).encode),
+              some (infos.getD (k + i) specStep.default).location)
+        | none => .ok (file, none) := by
+  intro fuel
+  induction fuel with
+  | zero =>
+    intro k hk
+    have : infos.drop k = [] := List.drop_of_length_le (by omega)
+    rw [this]; rfl
+  | succ fuel ih =>
+    intro k hk
+    have hkl : k < infos.length := by omega
+    have hd : infos.drop k = infos[k] :: infos.drop (k + 1) := List.drop_eq_getElem_cons hkl
+    have hwk := hw _ (List.getElem_mem hkl)
+    rw [setLocationAt.go, packInfoBlockSize_eq, readBlock_info f base infos hm hw k hkl]
+    simp only [PackInfo.decode_encode _ hwk]
+    rw [hd, List.findIdx?_cons]
+    by_cases hu : (infos[k]).uuid = uuid
+    · have hb : ((infos[k]).uuid == uuid) = true := by simp [hu]
+      have hg : infos.getD (k + 0) specStep.default = infos[k] := by simp [hkl]
+      rw [if_pos hu, if_pos hb]
+      simp only [hg]
+      rfl
+    · have hb : ¬ ((infos[k]).uuid == uuid) = true := by simp [hu]
+      rw [if_neg hu, if_neg hb, ih (k + 1) (by omega)]
+      cases List.findIdx? (fun p => p.uuid == uuid) (List.drop (k + 1) infos) with
+      | none => rfl
+      | some i =>
+        simp only [Option.map_some]
+        rw [show k + (i + 1) = k + 1 + i by omega]
+
+/-- The hypotheses H1–H4 on a manifest pack `f` (header at offset 0).  All of them hold for a
+    manifest written by the creator: `hdr`/`mhdr` are the two CRC-checked header blocks at 0 and 64,
+    `hwf`, `hver`, `mcount`, `mvs1`, `mvs2`, `mfree` are the field widths / version of the format
+    (the side conditions of `PackHeader.decode_encode` and `ManifestHeader.decode_encode`), `count`,
+    `fits`, `hbase` say that the `packCount` pack infos end exactly at `checkInfoPos`, `low` that
+    they start after the two header blocks, `infosAt`/`wf` that they are well-formed blocks. -/
+structure ManifestLayout (f : Bytes) (h : PackHeader) (m : ManifestHeader) (base : Nat)
+    (infos : List PackInfo) : Prop where
+  hdr : readBlock f 0 60 = .ok h.encode
+  hwf : h.WF
+  hver : h.major = Consts.versionGateMajor ∧ h.minor = Consts.versionGateMinor
+  mhdr : readBlock f 64 60 = .ok m.encode
+  mcount : m.packCount < 2 ^ 16
+  mvs1 : m.valueStore.1 < 2 ^ 48
+  mvs2 : m.valueStore.2 < 2 ^ 16
+  mfree : m.freeData.length = 24
+  count : m.packCount = infos.length
+  fits : infos.length * 256 ≤ h.checkInfoPos
+  hbase : base = h.checkInfoPos - infos.length * 256
+  low : 128 ≤ base
+  infosAt : ManifestAt f base infos
+  wf : ∀ p ∈ infos, p.WF
+
+theorem setLocationAt_eq_go (file : Bytes) (origin : Nat) (uuid loc : Bytes) (h : PackHeader)
+    (m : ManifestHeader) (base : Nat) (infos : List PackInfo)
+    (S : ManifestLayout (file.drop origin) h m base infos) :
+    setLocationAt file origin uuid loc =
+      setLocationAt.go file origin uuid loc (file.drop origin) base 0 infos.length := by
+  have e1 := PackHeader.decode_encode h S.hwf S.hver
+  have e2 := ManifestHeader.decode_encode m S.mcount S.mvs1 S.mvs2 S.mfree
+  have e3 : packInfosOffset h.checkInfoPos infos.length = base := by
+    rw [packInfosOffset, packInfoBlockSize_eq, S.hbase]
+  unfold setLocationAt
+  simp only [S.hdr, S.mhdr, e1, e2, bind, Outcome.bind, S.count, e3]
+
+theorem findIdx?_some_lt {infos : List PackInfo} {uuid : Bytes} {k : Nat}
+    (hk : infos.findIdx? (fun p => p.uuid == uuid) = some k) : k < infos.length :=
+  (List.findIdx?_eq_some_iff_getElem.mp hk).1
+
+/-- the scan stops at the first pack info carrying the uuid -/
+theorem setLocationAt_found (file : Bytes) (origin : Nat) (uuid loc : Bytes) (h : PackHeader)
+    (m : ManifestHeader) (base : Nat) (infos : List PackInfo)
+    (S : ManifestLayout (file.drop origin) h m base infos)
+    (hl : loc.length ≤ Consts.locationPad) (k : Nat)
+    (hk : infos.findIdx? (fun p => p.uuid == uuid) = some k) :
+    setLocationAt file origin uuid loc =
+      .ok (splice file (origin + (base + k * 256))
+            (block (setLoc (infos.getD k specStep.default) loc).encode),
+           some (infos.getD k specStep.default).location) := by
+  rw [setLocationAt_eq_go file origin uuid loc h m base infos S,
+    setLocationAt_go_spec file origin uuid loc _ base infos S.infosAt S.wf infos.length 0 (by omega),
+    List.drop_zero, hk]
+  have hn : ¬ loc.length > Consts.locationPad := by omega
+  simp only [hn, if_false, Nat.zero_add]
+
+/-- an unknown uuid leaves the file as it is -/
+theorem setLocationAt_notfound (file : Bytes) (origin : Nat) (uuid loc : Bytes) (h : PackHeader)
+    (m : ManifestHeader) (base : Nat) (infos : List PackInfo)
+    (S : ManifestLayout (file.drop origin) h m base infos)
+    (hn : infos.findIdx? (fun p => p.uuid == uuid) = none) :
+    setLocationAt file origin uuid loc = .ok (file, none) := by
+  rw [setLocationAt_eq_go file origin uuid loc h m base infos S,
+    setLocationAt_go_spec file origin uuid loc _ base infos S.infosAt S.wf infos.length 0 (by omega),
+    List.drop_zero, hn]
+
+/-! ### the integrity check does not see a rewrite -/
+
+theorem readBlock_splice_disjoint (f new : Bytes) (off a n : Nat) (h : off + new.length ≤ f.length)
+    (hd : a + (n + 4) ≤ off ∨ off + new.length ≤ a) :
+    readBlock (splice f off new) a n = readBlock f a n := by
+  unfold readBlock
+  rw [splice_length _ _ _ h, slice_splice_disjoint _ _ _ _ _ h hd]
+
+theorem fileStep_cases (base : Nat) (infos : List PackInfo) (f : Bytes) (op : Bytes × Bytes) :
+    (infos.findIdx? (fun p => p.uuid == op.1) = none ∧
+      fileStep base infos f op = f ∧ specStep infos op = infos) ∨
+    ∃ k, ∃ hk : k < infos.length, infos.findIdx? (fun p => p.uuid == op.1) = some k ∧
+      fileStep base infos f op = splice f (base + k * 256) (block (setLoc infos[k] op.2).encode) ∧
+      specStep infos op = infos.set k (setLoc infos[k] op.2) := by
+  cases hfi : infos.findIdx? (fun p => p.uuid == op.1) with
+  | none => left; simp [fileStep, specStep, hfi]
+  | some k =>
+    right
+    have hk : k < infos.length := findIdx?_some_lt hfi
+    have hgd : infos[k]?.getD specStep.default = infos[k] := by simp [hk]
+    exact ⟨k, hk, rfl, by simp [fileStep, hfi, hgd], by simp [specStep, hfi, hgd]⟩
+
+theorem maskFrom_take (po n p : Nat) (bs : Bytes) (c : Nat) :
+    maskFrom po n p (bs.take c) = (maskFrom po n p bs).take c := by
+  apply List.ext_getElem?
+  intro i
+  rw [maskFrom_getElem?, List.getElem?_take, List.getElem?_take, maskFrom_getElem?]
+  by_cases hi : i < c
+  · simp only [hi, if_true]
+  · simp only [hi, if_false, Option.map_none]
+
+theorem manifestMask_take (po n : Nat) (bs : Bytes) (c : Nat) :
+    manifestMask po n (bs.take c) = (manifestMask po n bs).take c := maskFrom_take po n 0 bs c
+
+/-- One step keeps the layout hypotheses, the length, the masked bytes, and every CRC block that
+    lies outside the pack-info region. -/
+theorem ManifestLayout.step {f : Bytes} {h : PackHeader} {m : ManifestHeader} {base : Nat}
+    {infos : List PackInfo} (S : ManifestLayout f h m base infos) (op : Bytes × Bytes)
+    (hl : op.2.length ≤ Consts.locationPad) :
+    ManifestLayout (fileStep base infos f op) h m base (specStep infos op) ∧
+    (fileStep base infos f op).length = f.length ∧
+    manifestMask base infos.length (fileStep base infos f op) = manifestMask base infos.length f ∧
+    (∀ a n, (a + (n + 4) ≤ base ∨ base + infos.length * 256 ≤ a) →
+      readBlock (fileStep base infos f op) a n = readBlock f a n) := by
+  rcases fileStep_cases base infos f op with ⟨-, e1, e2⟩ | ⟨k, hk, -, e1, e2⟩
+  · rw [e1, e2]; exact ⟨S, rfl, rfl, fun _ _ _ => rfl⟩
+  · have hwk : (infos[k]).WF := S.wf _ (List.getElem_mem hk)
+    obtain ⟨h1, _, _, _, h5, h6⟩ := rewrite_one f base infos.length infos k op.2 S.infosAt rfl hk hwk hl
+    have hnl : (block (setLoc infos[k] op.2).encode).length = 256 :=
+      block_encode_length _ (setLoc_WF _ _ hwk hl)
+    have hk1 : (k + 1) * 256 ≤ infos.length * 256 := Nat.mul_le_mul_right 256 hk
+    have hlen := S.infosAt.1
+    have hin : base + k * 256 + (block (setLoc infos[k] op.2).encode).length ≤ f.length := by
+      rw [hnl]; omega
+    have hrb : ∀ a n, (a + (n + 4) ≤ base ∨ base + infos.length * 256 ≤ a) →
+        readBlock (splice f (base + k * 256) (block (setLoc infos[k] op.2).encode)) a n
+          = readBlock f a n := by
+      intro a n hd
+      apply readBlock_splice_disjoint _ _ _ _ _ hin
+      rw [hnl]; omega
+    have hlow := S.low
+    rw [e1, e2]
+    refine ⟨⟨?_, S.hwf, S.hver, ?_, S.mcount, S.mvs1, S.mvs2, S.mfree, ?_, ?_, ?_, S.low, h5, ?_⟩,
+      h1, h6, hrb⟩
+    · rw [hrb 0 60 (by omega)]; exact S.hdr
+    · rw [hrb 64 60 (by omega)]; exact S.mhdr
+    · rw [List.length_set]; exact S.count
+    · rw [List.length_set]; exact S.fits
+    · rw [List.length_set]; exact S.hbase
+    · intro p hp
+      rcases List.mem_or_eq_of_mem_set hp with hp | hp
+      · exact S.wf p hp
+      · rw [hp]; exact setLoc_WF _ _ hwk hl
+
+theorem specStep_length (infos : List PackInfo) (op : Bytes × Bytes) :
+    (specStep infos op).length = infos.length := by
+  rcases fileStep_cases 0 infos [] op with ⟨-, -, e2⟩ | ⟨k, hk, -, -, e2⟩
+  · rw [e2]
+  · rw [e2, List.length_set]
+
+theorem ManifestLayout.end_eq {f : Bytes} {h : PackHeader} {m : ManifestHeader} {base : Nat}
+    {infos : List PackInfo} (S : ManifestLayout f h m base infos) :
+    base + infos.length * 256 = h.checkInfoPos := by
+  have := S.fits; have := S.hbase; omega
+
+theorem ManifestLayout.packCheckParts_eq {f : Bytes} {h : PackHeader} {m : ManifestHeader}
+    {base : Nat} {infos : List PackInfo} (S : ManifestLayout f h m base infos) :
+    packCheckParts f =
+      match h.checkInfoSize with
+      | none => .panic "check_info_size underflow"
+      | some n => (readBlock f h.checkInfoPos n).bind fun cb =>
+          (CheckInfo.decode cb).bind fun ci => .ok (h.checkInfoPos, ci) := by
+  have e1 := PackHeader.decode_encode h S.hwf S.hver
+  unfold packCheckParts
+  simp only [S.hdr, e1, bind, Outcome.bind]
+  rfl
+
+theorem ManifestLayout.manifestMaskOf_eq {f : Bytes} {h : PackHeader} {m : ManifestHeader}
+    {base : Nat} {infos : List PackInfo} (S : ManifestLayout f h m base infos) :
+    manifestMaskOf f = .ok (base, infos.length) := by
+  have e1 := PackHeader.decode_encode h S.hwf S.hver
+  have e2 := ManifestHeader.decode_encode m S.mcount S.mvs1 S.mvs2 S.mfree
+  have e3 : packInfosOffset h.checkInfoPos infos.length = base := by
+    rw [packInfosOffset, packInfoBlockSize_eq, S.hbase]
+  unfold manifestMaskOf
+  simp only [S.hdr, S.mhdr, e1, e2, bind, Outcome.bind, S.count, e3]
+
+/-- `Pack::check` reads the same header and the same check block after the rewrite -/
+theorem packCheckParts_fileStep (f : Bytes) (h : PackHeader) (m : ManifestHeader) (base : Nat)
+    (infos : List PackInfo) (S : ManifestLayout f h m base infos) (uuid loc : Bytes)
+    (hl : loc.length ≤ Consts.locationPad) :
+    packCheckParts (fileStep base infos f (uuid, loc)) = packCheckParts f := by
+  obtain ⟨S', -, -, hrb⟩ := S.step (uuid, loc) hl
+  rw [S'.packCheckParts_eq, S.packCheckParts_eq]
+  cases h.checkInfoSize with
+  | none => rfl
+  | some n =>
+    simp only
+    rw [hrb h.checkInfoPos n (Or.inr (Nat.le_of_eq S.end_eq))]
+
+/-- the mask parameters read from the two headers are the same after the rewrite -/
+theorem manifestMaskOf_fileStep (f : Bytes) (h : PackHeader) (m : ManifestHeader) (base : Nat)
+    (infos : List PackInfo) (S : ManifestLayout f h m base infos) (uuid loc : Bytes)
+    (hl : loc.length ≤ Consts.locationPad) :
+    manifestMaskOf (fileStep base infos f (uuid, loc)) = manifestMaskOf f := by
+  obtain ⟨S', -, -, -⟩ := S.step (uuid, loc) hl
+  rw [S'.manifestMaskOf_eq, S.manifestMaskOf_eq, specStep_length]
+
+/-- **The manifest's integrity check does not see a location rewrite**, whatever the hash. -/
+theorem manifestCheck_fileStep (H : Bytes → Bytes) (f : Bytes) (h : PackHeader)
+    (m : ManifestHeader) (base : Nat) (infos : List PackInfo)
+    (S : ManifestLayout f h m base infos) (uuid loc : Bytes)
+    (hl : loc.length ≤ Consts.locationPad) :
+    manifestCheck H (fileStep base infos f (uuid, loc)) = manifestCheck H f := by
+  have hparts := packCheckParts_fileStep f h m base infos S uuid loc hl
+  obtain ⟨S', hlen, hmask, -⟩ := S.step (uuid, loc) hl
+  unfold manifestCheck
+  rw [S'.manifestMaskOf_eq, S.manifestMaskOf_eq, specStep_length]
+  simp only [bind, Outcome.bind]
+  unfold packCheck
+  rw [hparts]
+  cases e : packCheckParts f with
+  | ok r =>
+    obtain ⟨c, ci⟩ := r
+    simp only [bind, Outcome.bind]
+    cases ci with
+    | none => rfl
+    | blake3 stored =>
+      simp only
+      rw [hlen, manifestMask_take, manifestMask_take, hmask]
+  | err _ => rfl
+  | panic _ => rfl
+  | hang => rfl
+  | fault => rfl
+
+/-! ### histories -/
+
+theorem manifestCheck_histories (H : Bytes → Bytes) (f : Bytes) (h : PackHeader)
+    (m : ManifestHeader) (base : Nat) (infos : List PackInfo)
+    (S : ManifestLayout f h m base infos) (ops : List (Bytes × Bytes))
+    (hl : ∀ op ∈ ops, op.2.length ≤ Consts.locationPad) :
+    manifestCheck H (ops.foldl (fun (st : Bytes × List PackInfo) op =>
+      (fileStep base st.2 st.1 op, specStep st.2 op)) (f, infos)).1 = manifestCheck H f := by
+  induction ops generalizing f infos with
+  | nil => rfl
+  | cons op rest ih =>
+    have hlo : op.2.length ≤ Consts.locationPad := hl op List.mem_cons_self
+    have hl' : ∀ o ∈ rest, o.2.length ≤ Consts.locationPad :=
+      fun o ho => hl o (List.mem_cons_of_mem _ ho)
+    rw [List.foldl_cons]
+    obtain ⟨S', -, -, -⟩ := S.step op hlo
+    rw [ih _ _ S' hl']
+    exact manifestCheck_fileStep H f h m base infos S op.1 op.2 hlo
+
+/-! ### the executable tool is the abstract step -/
+
+theorem splice_drop (file new : Bytes) (origin off : Nat) (h : origin ≤ file.length) :
+    (splice file (origin + off) new).drop origin = splice (file.drop origin) off new := by
+  unfold splice
+  have h1 : origin ≤ (file.take (origin + off)).length := by
+    rw [List.length_take]; omega
+  rw [List.append_assoc, List.drop_append_of_le_length h1, List.drop_take, List.drop_drop,
+    Nat.add_sub_cancel_left, List.append_assoc]
+  congr 3
+  omega
+
+theorem splice_take (file new : Bytes) (origin off : Nat) (h : origin ≤ file.length) :
+    (splice file (origin + off) new).take origin = file.take origin := by
+  unfold splice
+  have h1 : origin ≤ (file.take (origin + off)).length := by
+    rw [List.length_take]; omega
+  rw [List.append_assoc, List.take_append_of_le_length h1, List.take_take,
+    Nat.min_eq_left (by omega)]
+
+/-- the old location reported by the tool -/
+def oldLocation (infos : List PackInfo) (uuid : Bytes) : Option Bytes :=
+  (infos.findIdx? (fun p => p.uuid == uuid)).map fun k => (infos.getD k specStep.default).location
+
+/-- the file written by the tool, for a manifest located at `origin` -/
+theorem setLocationAt_eq (file : Bytes) (origin : Nat) (uuid loc : Bytes) (h : PackHeader)
+    (m : ManifestHeader) (base : Nat) (infos : List PackInfo)
+    (S : ManifestLayout (file.drop origin) h m base infos)
+    (hl : loc.length ≤ Consts.locationPad) :
+    setLocationAt file origin uuid loc =
+      .ok (file.take origin ++ fileStep base infos (file.drop origin) (uuid, loc),
+           oldLocation infos uuid) := by
+  have hlen := S.infosAt.1
+  have hlow := S.low
+  rw [List.length_drop] at hlen
+  have ho : origin ≤ file.length := by omega
+  cases hfi : infos.findIdx? (fun p => p.uuid == uuid) with
+  | none =>
+    rw [setLocationAt_notfound file origin uuid loc h m base infos S hfi]
+    simp only [fileStep, oldLocation, hfi, Option.map_none, List.take_append_drop]
+  | some k =>
+    rw [setLocationAt_found file origin uuid loc h m base infos S hl k hfi]
+    simp only [fileStep, oldLocation, hfi, Option.map_some]
+    rw [← splice_drop _ _ _ _ ho, ← splice_take file
+      (block (setLoc (infos.getD k specStep.default) loc).encode) origin (base + k * 256) ho,
+      List.take_append_drop]
+
+/-- standalone manifest file: the tool computes exactly the abstract step of `rewrite_histories` -/
+theorem setLocationAt_eq_fileStep (file : Bytes) (uuid loc : Bytes) (h : PackHeader)
+    (m : ManifestHeader) (base : Nat) (infos : List PackInfo)
+    (S : ManifestLayout file h m base infos) (hl : loc.length ≤ Consts.locationPad) :
+    setLocationAt file 0 uuid loc =
+      .ok (fileStep base infos file (uuid, loc), oldLocation infos uuid) := by
+  have S0 : ManifestLayout (file.drop 0) h m base infos := by rw [List.drop_zero]; exact S
+  rw [setLocationAt_eq file 0 uuid loc h m base infos S0 hl]
+  simp only [List.take_zero, List.drop_zero, List.nil_append]
+
+/-- manifest at `origin` inside a container: bytes before `origin` untouched, the pack part is the
+    abstract step -/
+theorem setLocationAt_drop (file : Bytes) (origin : Nat) (uuid loc : Bytes) (h : PackHeader)
+    (m : ManifestHeader) (base : Nat) (infos : List PackInfo)
+    (S : ManifestLayout (file.drop origin) h m base infos)
+    (hl : loc.length ≤ Consts.locationPad) :
+    ∃ file', (setLocationAt file origin uuid loc).map' (·.1) = .ok file' ∧
+      file'.take origin = file.take origin ∧
+      file'.drop origin = fileStep base infos (file.drop origin) (uuid, loc) := by
+  have hlen := S.infosAt.1
+  have hlow := S.low
+  rw [List.length_drop] at hlen
+  have ho : (file.take origin).length = origin := by rw [List.length_take]; omega
+  refine ⟨_, by rw [setLocationAt_eq file origin uuid loc h m base infos S hl]; rfl, ?_, ?_⟩
+  · rw [List.take_append_of_le_length (by omega), List.take_of_length_le (by omega)]
+  · rw [List.drop_append_of_le_length (by omega), List.drop_of_length_le (by omega),
+      List.nil_append]
+
+/-! ### non-vacuity: the layout hypotheses hold for files laid out as the creator does -/
+
+theorem manifestAt_concat (pre : Bytes) (infos : List PackInfo) (post : Bytes)
+    (hw : ∀ p ∈ infos, p.WF) :
+    ManifestAt (pre ++ (infos.flatMap fun p => block p.encode) ++ post) pre.length infos := by
+  induction infos generalizing pre with
+  | nil => exact ⟨by simp, fun k hk => absurd hk (Nat.not_lt_zero k)⟩
+  | cons p ps ih =>
+    have hwp : p.WF := hw p List.mem_cons_self
+    have hlp := block_encode_length p hwp
+    have ih' := ih (pre ++ block p.encode) (fun q hq => hw q (List.mem_cons_of_mem _ hq))
+    have ef : pre ++ ((p :: ps).flatMap fun p => block p.encode) ++ post
+        = (pre ++ block p.encode) ++ (ps.flatMap fun p => block p.encode) ++ post := by
+      simp only [List.flatMap_cons, List.append_assoc]
+    rw [ef]
+    generalize hF : (pre ++ block p.encode) ++ (ps.flatMap fun p => block p.encode) ++ post = F
+      at ih'
+    rw [List.length_append, hlp] at ih'
+    obtain ⟨i1, i2⟩ := ih'
+    refine ⟨by rw [List.length_cons]; omega, ?_⟩
+    intro k hk
+    cases k with
+    | zero =>
+      subst hF
+      simp only [Nat.zero_mul, Nat.add_zero, List.getElem_cons_zero]
+      have := slice_mid pre (block p.encode) ((ps.flatMap fun p => block p.encode) ++ post)
+      rw [hlp] at this
+      rw [List.append_assoc (pre ++ block p.encode)]
+      exact this
+    | succ j =>
+      have hj : j < ps.length := by simpa using hk
+      have := i2 j hj
+      simp only [List.getElem_cons_succ]
+      rw [← this]
+      congr 1
+      omega
+
+theorem ManifestLayout.of_concat (h : PackHeader) (m : ManifestHeader) (infos : List PackInfo)
+    (post : Bytes) (hwf : h.WF)
+    (hver : h.major = Consts.versionGateMajor ∧ h.minor = Consts.versionGateMinor)
+    (mvs1 : m.valueStore.1 < 2 ^ 48) (mvs2 : m.valueStore.2 < 2 ^ 16)
+    (mfree : m.freeData.length = 24) (hcount : m.packCount = infos.length)
+    (hn : infos.length < 2 ^ 16) (hcip : h.checkInfoPos = 128 + infos.length * 256)
+    (hw : ∀ p ∈ infos, p.WF) :
+    ManifestLayout (block h.encode ++ block m.encode ++ (infos.flatMap fun p => block p.encode)
+      ++ post) h m 128 infos := by
+  have l1 : (block h.encode).length = 64 := by rw [block_length, PackHeader.encode_length h hwf]
+  have l2 : (block m.encode).length = 64 := by
+    rw [block_length, ManifestHeader.encode_length m mfree]
+  have l12 : (block h.encode ++ block m.encode).length = 128 := by
+    rw [List.length_append, l1, l2]
+  have hat := manifestAt_concat (block h.encode ++ block m.encode) infos post hw
+  rw [l12] at hat
+  refine ⟨?_, hwf, hver, ?_, by omega, mvs1, mvs2, mfree, hcount, by omega, by omega,
+    Nat.le_refl _, hat, hw⟩
+  · have := readBlock_block [] h.encode
+      (block m.encode ++ (infos.flatMap fun p => block p.encode) ++ post)
+    rw [PackHeader.encode_length h hwf] at this
+    simpa only [List.nil_append, List.length_nil, List.append_assoc] using this
+  · have := readBlock_block (block h.encode) m.encode
+      ((infos.flatMap fun p => block p.encode) ++ post)
+    rw [ManifestHeader.encode_length m mfree, l1] at this
+    simpa only [List.append_assoc] using this
+
 end Jubako
+
